@@ -226,6 +226,19 @@ def _make_long(rng, atoms, surrogates_ok):
     return out
 
 
+def make_huge(rng):
+    """A document with ONE run of 66-140 thousand characters (more than 2**16) in some context: thresholds on the length of
+    a single token / run / document are otherwise never crossed."""
+    ctx = list(rng.choice([[], [], ["<!DOCTYPE html>"], ["<svg>", "<![CDATA["], ["<frameset>"], ["<?php "], ["<!x "], ["<!--"], ["<p title='"],
+                           ["<script>"], ["<title>"], ["<textarea>"], ["<plaintext>"], ["<table>"], ["<pre>"], ["</body>"], ["<select>"]]))
+    unit = rng.choice(["y", "word ", "ab-c ", "k=v ", "q\n", "x stray ", "\xe9 "])
+    n = rng.choice([66000, 70000, 131100, 140000]) + rng.randint(-200, 200)
+    run = unit * (n // len(unit))
+    tail = [rng.choice(["]]>", "?>", ">", "-->", "'>", "</script>", "</title>", "</textarea>", "</table>", "</pre>", ""]),
+            rng.choice(["<p>after", "</i>", "&amp;", "x"])]
+    return ctx + [run] + tail
+
+
 def split_long_atoms(atoms, limit=64):
     """For the minimiser: break long atoms into pieces it can drop."""
     out = []
